@@ -18,7 +18,7 @@ func init() {
 			"C13.4 Wrapper.Get returns an item only if created+exp is after now; created is stamped before each store and nowhere else; a get naming seq is sent v/k/sig only when the stored seq is newer.",
 		NotDecided: "linearizability of real histories against arbitrary Store implementations (the Store is an opaque hook); 301 vs 302 precedence; '>' vs '≥' (value level).",
 		Rules: []*Rule{
-			{ID: "C13.1", Doc: "overwrite is gated by CheckIncoming", Floor: 2, Run: c13r1},
+			{ID: "C13.1", Doc: "overwrite is gated by CheckIncoming", Floor: 1, Run: c13r1},
 			{ID: "C13.2", Doc: "what CheckIncoming=nil means: seq and CAS operands", Floor: 4, Run: c13r2},
 			{ID: "C13.3", Doc: "compound store operations are atomic", Floor: 3, Run: c13r3},
 			{ID: "C13.4", Doc: "expiry and conditional get", Floor: 5, Run: c13r4},
@@ -31,9 +31,9 @@ func c13r1(w *World, rr *RuleRun) {
 	a := w.bep44()
 	errNotFound := w.P.Global("bep44", "ErrItemNotFound")
 	targetM := w.P.Func("(*bep44.Item).Target")
-	for _, site := range w.CallsIn(a.wPut, a.sPut, true) {
+	for _, site := range w.AllCallsTo(w.P.LibFuncs, a.sPut) {
 		c := callInstrCommon(site)
-		if !c.IsInvoke() {
+		if !c.IsInvoke() || !w.withinUp(site.Parent(), a.wPut) {
 			continue
 		}
 		item := c.Args[0]
@@ -224,10 +224,10 @@ func c13r4(w *World, rr *RuleRun) {
 	}
 	// created stamped only in Wrapper.Put, and before each raw Put
 	for _, st := range w.FieldWrites(w.P.LibFuncs, created) {
-		rr.At(w, st, "Item.created written only by Wrapper.Put", within(st.Parent(), a.wPut), "in "+shortFuncName(st.Parent()))
+		rr.At(w, st, "Item.created written only by Wrapper.Put", w.withinUp(st.Parent(), a.wPut), "in "+shortFuncName(st.Parent()))
 	}
-	for _, site := range w.CallsIn(a.wPut, a.sPut, true) {
-		if !callInstrCommon(site).IsInvoke() {
+	for _, site := range w.AllCallsTo(w.P.LibFuncs, a.sPut) {
+		if !callInstrCommon(site).IsInvoke() || !w.withinUp(site.Parent(), a.wPut) {
 			continue
 		}
 		ok := PrecededBy(site, func(ins ssa.Instruction) bool {
